@@ -53,6 +53,7 @@ fn build_table(ctx: &Ctx, thorough: bool) -> Vec<ExText> {
         long_scalar: 30,
         deep: 0,
         many: 0,
+        large: 0,
     };
     let mut per_m = vec![0u64; max_m + 2];
     let mut table = Vec::new();
@@ -125,7 +126,7 @@ fn draw_env(r: &mut SplitMix64) -> InputKind {
         0 | 1 => InputKind::Str,
         2 | 3 => InputKind::Buffered,
         4 => InputKind::Ring(8, Policy::PerCall),
-        _ => InputKind::Ring(*r.pick(&[9usize, 16, 17, 64]), *r.pick(&[Policy::PushBack, Policy::Leave])),
+        _ => InputKind::Ring(Gen::draw_capacity(r), *r.pick(&[Policy::PushBack, Policy::Leave])),
     }
 }
 
